@@ -152,6 +152,8 @@ def handle (line : String) : String × String :=
   | ["tt", mb] => ttHandle mb ""
   | "limits" :: rest => limitsHandle rest
   | ["evalpair", a, b] => evalpairHandle a b
+  | ["evalplay", fen, ops] => evalplayHandle fen ops
+  | ["evalplay", fen] => evalplayHandle fen ""
   | ["blend", mg, eg, ph] => blendHandle mg eg ph
   | ["see", a, b] => seeHandle a b
   | ["san", fen] => sanHandle fen
@@ -238,6 +240,18 @@ def genPlay (seed n : Nat) (rootsFile : String) : IO Unit := do
     match p with
     | some p => starts := p :: starts
     | none => pure ()
+  -- a few starts with a halfmove clock beyond any small integer type (a FEN may carry any u32)
+  let mut hr := Rng.ofSeed (seed + 23)
+  let mut starts2 : List Rules.Pos := []
+  let mut idx := 0
+  for p in starts do
+    idx := idx + 1
+    if idx % 9 == 0 then
+      let (h1, extra) := hr.below 400
+      hr := h1
+      starts2 := { p with halfmove := 200 + extra } :: starts2
+    else starts2 := p :: starts2
+  starts := starts2
   for p in starts do
     let (r1, len) := r.below 40
     let (r2, withNulls) := r1.below 3
@@ -247,6 +261,14 @@ def genPlay (seed n : Nat) (rootsFile : String) : IO Unit := do
     let mut stack : List (Rules.Pos × Bool) := []   -- (position before the op, op was null)
     let mut ops : List String := []
     let mut lastNull := false
+    -- an en-passant target replaced by another one: answer a double push with a double push
+    if cur.ep.isSome then
+      match (Rules.legalMoves cur).find? (fun m => (Rules.apply cur m).ep.isSome) with
+      | some m =>
+        stack := (cur, false) :: stack
+        cur := Rules.apply cur m
+        ops := m.text :: ops
+      | none => pure ()
     for _ in List.range (len + 1) do
       let (r3, choice) := r.below 10
       r := r3
